@@ -976,6 +976,8 @@ class ModuleVistor(NodeVisitor):
                         # Avoid format_summary() going back to the original
                         # empty-body docstring.
                         attr.docstring = ''
+                    else:
+                        other_fields.append(field)
                 elif tag == 'rtype':
                     attr.parsed_type = field.body()
                 else:
